@@ -3,7 +3,7 @@
 PRELUDE = r'''
 // `struct Continuation` derives Clone over a tuple field (not ingestible) and has private fields (no transparent
 // external spec): it is opaque here, with uninterpreted views; its one-line getters and the struct literal in
-// Vm::to_continuation carry assumed contracts, which the Kani harness cont_capture_restore checks on the real code.
+// Vm::to_continuation carry assumed contracts (a Kani harness over a real Vm was tried and withdrawn: it does not finish).
 pub uninterp spec fn cont_stack(c: Continuation) -> Stack;
 pub uninterp spec fn cont_regs(c: Continuation) -> (usize, (usize, usize), usize);
 pub open spec fn cont_wf(c: Continuation) -> bool { cont_stack(c).wf() && cont_stack(c).cells().len() == cont_stack(c).sp_spec() + 1 }
